@@ -52,6 +52,10 @@ var c04Skeletons = []skeleton{
 	{name: "summarize-alias", kind: "ident", pre: "T | summarize ", post: " = count() by b"},
 	{name: "summarize-key-alias", kind: "ident", pre: "T | summarize count() by ", post: " = b"},
 	{name: "as-name", kind: "ident", pre: "T | as ", post: " | count"},
+	{name: "as-name-then-join", kind: "ident", pre: "T | as ", post: " | join kind=inner (U) on k"},
+	{name: "as-name-in-right-side", kind: "ident", pre: "T | join kind=leftouter (U | where y > 1 | as ", post: ") on k | count"},
+	{name: "as-name-then-ops", kind: "ident", pre: "T | where a | as ", post: " | where b | take 1"},
+	{name: "table-in-nested-join", kind: "ident", pre: "T | join (U | join kind=inner (", post: ") on k) on k"},
 	{name: "join-table", kind: "ident", pre: "T | join kind=inner (", post: " | where y > 1) on k"},
 	{name: "join-column", kind: "ident", pre: "T | join (R) on ", post: ""},
 	{name: "sort-key", kind: "ident", pre: "T | sort by ", post: " asc, b"},
